@@ -29,6 +29,7 @@ Definition obj_eqb (a b : zobj) : bool :=
   | OSptensor A, OSptensor B => sp_raw_eqb A B
   | OKtensor K, OKtensor K' => vec_eqb (kweights K) (kweights K') && list_eqb mat_eqb (kfactors K) (kfactors K')
   | OMatrix m n A, OMatrix m' n' A' => Nat.eqb m m' && Nat.eqb n n' && mat_eqb A A'
+  | OArray s c, OArray s' c' => nvec_eqb s s' && vec_eqb c c'
   | _, _ => false
   end.
 
